@@ -225,3 +225,21 @@ Theorem C09_eliminate_source : forall c, CInv c -> elim_ok_b c = true ->
   exists c', Circuit_eliminate_1to1_forks_src c = Some c' /\ CInv c' /\ (IoLive c -> IoLive c') /\
              exists m, eliminate_1to1 c = Some m /\ ceq c' m.
 Proof. exact eliminate_source_inv. Qed.
+
+(* the pickle pair AS TRANSLATED FROM THE SOURCE (Gen/CircuitPickleSrc.v, translate/gen_circuit_pickle.py; equal to the hand model on
+   every state: C10_pickle_source_is_model): unpickling the state dict of a consistent circuit does not raise, the new object's list
+   attributes have the classes Circuit.__init__ creates, and it satisfies the graph invariant with the same canonical form ... *)
+From KV Require Import Model.CircuitPickleSrcLib Gen.CircuitPickleSrc Proofs.CircuitPickleSrcProofs.
+Theorem C09_pickle_source : forall c nm, CInv c -> io_ok_b c = true ->
+  exists m c', match Circuit_getstate_src c nm with Some v => Circuit_setstate_src v | None => None end = Some (m, c') /\
+               m = init_meta nm /\ CInv c' /\ canon c' = canon c /\ IoLive c'.
+Proof. exact pickle_source_inv. Qed.
+(* ... INCLUDING the container behaviour: removing any line of the unpickled circuit afterwards (Line.remove and the
+   IndexList.__delitem__ it reaches, both translated from the source) does not raise, keeps the invariant, and every listed line is
+   alive with index = position (a non-last line is replaced by the last one, which is renumbered: C10_pickle_source_example) *)
+Theorem C09_unpickled_line_remove : forall c nm m c' l, CInv c -> io_ok_b c = true ->
+  match Circuit_getstate_src c nm with Some v => Circuit_setstate_src v | None => None end = Some (m, c') -> In l (lines c') ->
+  (m_nodes_cls m = CIndexList /\ m_lines_cls m = CIndexList /\ m_io_cls m = CGrowingList) /\
+  exists c'', Line_remove_src c' l = Some c'' /\ CInv c'' /\
+              forall i l2, nth_error (lines c'') i = Some l2 -> l_alive (lst c'' l2) = true /\ l_index (lst c'' l2) = i.
+Proof. exact unpickled_line_remove. Qed.
